@@ -58,6 +58,7 @@ class FuseInterp:
         if len(params) != 3:
             raise AnalysisError(f"{fi.qualname}: fuse must take (charges, signatures, new_signature)")
         self.p_ch, self.p_sig, self.p_new = params
+        self.shortcuts = []
         self.env = {}
         self.temps = {}      # name -> (column expression, {matrix name: version at definition})
         self.version = {}
@@ -165,6 +166,23 @@ class FuseInterp:
                     self.err(st, "returns None")
                 ret = self.ev(st.value)
                 break
+            if isinstance(st, ast.If) and not st.orelse and st.body and isinstance(st.body[-1], ast.Return) and len(st.body) == 1 \
+                    and st.body[0].value is not None:
+                # a shortcut `if <case>: return <expr>`: the value it returns is a result of fuse like any other
+                rv = st.body[0].value
+                try:
+                    import copy as _copy
+                    saved = (_copy.deepcopy(self.env), dict(self.version), dict(self.temps))
+                    r = self.ev(rv)
+                    self.env, self.version, self.temps = saved
+                    self.shortcuts.append((st, r))
+                except AnalysisError:
+                    raw = any(isinstance(x, ast.Name) and x.id == self.p_ch for x in ast.walk(rv)) and not any(
+                        (isinstance(x, ast.BinOp) and isinstance(x.op, ast.Mod)) or (isinstance(x, ast.Call) and A.call_name(x) in MOD_FUNCS) for x in ast.walk(rv))
+                    if raw:
+                        raise RawShortcut(st, rv)
+                    raise
+                continue
             if isinstance(st, ast.Assign) and len(st.targets) == 1:
                 t = st.targets[0]
                 if isinstance(t, ast.Name):
@@ -230,6 +248,11 @@ class FuseInterp:
             # reduction of a different column written into column j: definite breach, reported by caller
             raise ColumnMix(node, ci, (name, j))
         return self.modulus(k)
+
+
+class RawShortcut(Exception):
+    def __init__(self, node, value):
+        self.node, self.value = node, value
 
 
 class NotLinearForm(Exception):
@@ -304,7 +327,20 @@ def check_fuse(chk, base, syms):
             chk.bad("G2", fi, f"SYM_ID={sym_id!r} NSYM={nsym}", f"SYM_ID names {len(want)} factors but NSYM={nsym}")
             continue
         try:
-            v = FuseInterp(fi, nsym).run()
+            it_ = FuseInterp(fi, nsym)
+            v = it_.run()
+            for st_, r_ in it_.shortcuts:
+                if r_.red != v.red or r_.sign != v.sign:
+                    chk.bad("G2", (fi, st_), A.short(st_, 80), f"{ci.name}.fuse: the shortcut `{A.short(st_, 80)}` reduces by {r_.red or 'nothing'} "
+                            f"(signed: {r_.sign}) where the general path reduces by {v.red} (signed: {v.sign})")
+        except RawShortcut as e:
+            if any(want):
+                chk.bad("G2", (fi, e.node), A.short(e.node, 80), f"{ci.name}.fuse: the shortcut `{A.short(e.node, 80)}` returns the charges as they were given, without the "
+                        f"reduction modulo {[m for m in want if m]}: this very call (one leg, signature kept) is how the library brings charges into the "
+                        f"canonical range and how Leg validates them -- out-of-range charges are accepted and one sector can be stored twice")
+            else:
+                chk.ok("G2", (fi, e.node), f"{ci.name}.fuse shortcut returns the charges of a group without cyclic factors")
+            continue
         except ColumnMix as e:
             chk.bad("G1", (fi, e.node), e.node, f"column {e.dst[1]} is overwritten with a reduction of column "
                     f"{e.src[1] if e.src else '?'}: not component-wise")
@@ -930,6 +966,7 @@ def run(chk):
 
 # liveness mutants (thorough tier): (name, relpath, old, new, expect_rule)  plain-text edits on a scratch copy
 MUTANTS = [
+    ('Z2xU1.fuse: identity shortcut without reduction', 'yastn/sym/sym_Z2xU1.py', '        teff = new_signature * (charges.swapaxes(1,2) @ signatures)', '        if charges.shape[1] == 1 and signatures[0] == new_signature:\n            return charges[:, 0, :].copy()\n        teff = new_signature * (charges.swapaxes(1,2) @ signatures)', 'G2'),
     ('LegMeta.conj keeps the signature', 'yastn/tensor/_legs.py', '        return LegMeta(sym=self.sym, s=-self.s, t=self.t, D=self.D, mf=self.mf, legs=legs_conj)', '        return LegMeta(sym=self.sym, s=self.s, t=self.t, D=self.D, mf=self.mf, legs=legs_conj)', 'G6'),
     ('Z2 component from the parity of the U1 components', 'yastn/sym/sym_U1xU1xZ2.py', '        teff[:, 2] = np.mod(teff[:, 2], 2)', '        teff[:, 2] = np.mod(teff[:, 0] + teff[:, 1], 2)', 'G1'),
     ("Z3 modulus 2", "yastn/sym/sym_Z3.py", "@ signatures), 3)", "@ signatures), 2)", "G2"),
